@@ -93,11 +93,12 @@ def ctx_worker_indicators(P, t, o):
     return {"workers": [w], "indicators": inds}
 
 
-def _constraint(maker, keep_without_t=False):
-    """two-task constraints vanish with T; list-valued ones keep binding the remaining task"""
+def _constraint(maker, keep_without_t=False, member_last=False):
+    """two-task constraints vanish with T; list-valued ones keep binding the remaining task
+    (member_last: the optional task is the *last* element of the list, after the mandatory one)"""
     def f(P, t, o):
         if t is not None:
-            maker(P, [t.obj, o.obj], t, o)
+            maker(P, [o.obj, t.obj] if member_last else [t.obj, o.obj], t, o)
         elif keep_without_t:
             maker(P, [o.obj], None, o)
     return f
@@ -167,6 +168,11 @@ CONTEXTS = {
     "end_before": _constraint(lambda P, lst, t, o: ps.TaskEndBefore(task=t.obj, value=P.int("c_v", ph=4))),
     "group_window": _constraint(lambda P, lst, t, o: ps.UnorderedTaskGroup(list_of_tasks=lst, time_interval=(P.int("c_lo", ph=1), P.int("c_hi", ph=30))), True),
     "ordered_group": _constraint(lambda P, lst, t, o: ps.OrderedTaskGroup(list_of_tasks=lst, kind="tight", time_interval_length=P.int("c_len", ph=20)), True),
+    "ordered_group_optional_last": _constraint(lambda P, lst, t, o: ps.OrderedTaskGroup(list_of_tasks=lst, kind="tight", time_interval_length=P.int("c_len", ph=20)), True, member_last=True),
+    "ordered_group_lax_optional_last": _constraint(lambda P, lst, t, o: ps.OrderedTaskGroup(list_of_tasks=lst, kind="lax", time_interval=(P.int("c_lo", ph=1), P.int("c_hi", ph=30))), True, member_last=True),
+    "ordered_group_strict": _constraint(lambda P, lst, t, o: ps.OrderedTaskGroup(list_of_tasks=lst, kind="strict"), True),
+    "group_window_optional_last": _constraint(lambda P, lst, t, o: ps.UnorderedTaskGroup(list_of_tasks=lst, time_interval=(P.int("c_lo", ph=1), P.int("c_hi", ph=30))), True, member_last=True),
+    "n_in_intervals_optional_last": _constraint(lambda P, lst, t, o: ps.ScheduleNTasksInTimeIntervals(list_of_tasks=lst, nb_tasks_to_schedule=1, kind="min", list_of_time_intervals=[(P.int("c_lo", ph=0), P.int("c_hi", ph=9))]), True, member_last=True),
     "n_in_intervals": _constraint(lambda P, lst, t, o: ps.ScheduleNTasksInTimeIntervals(list_of_tasks=lst, nb_tasks_to_schedule=1, kind="min", list_of_time_intervals=[(P.int("c_lo", ph=0), P.int("c_hi", ph=9))]), True),
 }
 
